@@ -69,3 +69,12 @@ def cases(tier, seed, ctx=None):
             conns.append([G.Construct] + [G.Feed(s) for s in segs] + [G.Turn])
             metas.append([15, name, len(body), len(head)])
         yield ("slotm", [regs, conns, [ver, []], metas], "one-handler-history")
+    # declared lengths beyond the 32-bit limits with only a few body bytes sent: a whole-body slot must keep waiting
+    for big in (2**31 - 1, 2**31, 2**31 + 5, 2**32, 2**32 + 10, 2**40):
+        for sent in (b"", b"abcd", b"0123456789"):
+            regs = [[b"up", 0, 3, 1, rng.range(0, 3)], [b"now", 0, 2, 0, 1]]
+            for name in (b"up", b"now"):
+                head = b"POST /" + name + b" HTTP/1.1\r\nContent-Length: %d\r\n\r\n" % big
+                segs = [head] + ([sent[:4], sent[4:]] if len(sent) > 4 else ([sent] if sent else []))
+                ops = [G.Construct] + [G.Feed(x) for x in segs if x] + [G.Turn]
+                yield ("slot", [regs, ops, [ver, []], [15, name, big, len(head)]], "huge-declared-length")
